@@ -139,10 +139,10 @@ func isOpaqueType(t types.Type) (string, bool) {
 	full := n.Obj().Pkg().Path() + "." + n.Obj().Name()
 	switch full {
 	case "time.Time", "sync.Mutex", "sync.RWMutex", "sync.WaitGroup", "sync.Once",
-		"encoding/xml.Name", "github.com/bwesterb/go-exptable.Table",
+		"github.com/bwesterb/go-exptable.Table",
 		"crypto/ecdsa.PublicKey", "crypto/ecdsa.PrivateKey", "os.File",
 		"github.com/sirupsen/logrus.Logger", "github.com/go-errors/errors.Error",
-		"math/rand.Rand", "crypto/sha256.digest":
+		"math/rand.Rand", "crypto/sha256.digest", "sync.Map":
 		return full, true
 	}
 	return "", false
